@@ -27,6 +27,20 @@ EDITS = [
     ("hdf/src/hfile.c", "    if (!(access_rec->access & DFACC_WRITE))\n        HGOTO_ERROR(DFE_DENIED, FAIL);\n\n    file_rec = HAatom_object(access_rec->file_id);", "    if ((access_rec->access & DFACC_WRITE) == 0)\n        HGOTO_ERROR(DFE_DENIED, FAIL);\n\n    file_rec = HAatom_object(access_rec->file_id);"),
     ("hdf/src/cskphuff.c", "            if (Hbitread(info->aid, 1, &bit) != 1) /* a failed read returns a short count */", "            if (1 != Hbitread(info->aid, 1, &bit)) /* a failed read returns a short count */"),
     ("mfhdf/src/cdf.c", "                if ((*handlep)->vgid != 0)\n                    HGOTO_ERROR(DFE_READERROR, FAIL);", "                if ((*handlep)->vgid) {\n                    HGOTO_ERROR(DFE_READERROR, FAIL);\n                }"),
+    # round 12 rules
+    ("hdf/src/hblocks.c", "    if (length == 0)\n        HGOTO_DONE(0);\n", "    if (length < 1)\n        HGOTO_DONE(0);\n"),   # DOENTRY
+    ("hdf/src/cnbit.c", "        if (nbit_info->buf_pos >= nbit_info->buf_len) { /* re-fill buffer */", "        if (nbit_info->buf_len <= nbit_info->buf_pos) { /* re-fill buffer */"),  # FILLEXT
+    ("hdf/src/crle.c", "                        rle_info->rle_state   = RLE_INIT;\n                        rle_info->second_byte = rle_info->last_byte = (unsigned)RLE_NIL;\n                    }\n                }\n                buf++;\n                length--;\n                break;\n\n            case RLE_MIX:",
+     "                        rle_info->second_byte = (unsigned)RLE_NIL;\n                        rle_info->last_byte   = (unsigned)RLE_NIL;\n                        rle_info->rle_state   = RLE_INIT;\n                    }\n                }\n                buf++;\n                length--;\n                break;\n\n            case RLE_MIX:"),  # STATEHIST
+    ("hdf/src/hfile.c", "    /* seek and write data */\n    if (HPseek(file_rec, access_rec->posn + data_off) == FAIL)\n        HGOTO_ERROR(DFE_SEEKERROR, FAIL);\n\n    if (HP_write(file_rec, data, length) == FAIL)",
+     "    /* seek and write data */\n    if (HPseek(file_rec, access_rec->posn + data_off) == FAIL)\n        HGOTO_ERROR(DFE_SEEKERROR, FAIL);\n    HEclear();\n\n    if (HP_write(file_rec, data, length) == FAIL)"),  # SEEKGAP: a call that cannot move the file pointer
+    ("mfhdf/src/cdf.c", "            if (handle->file_type == HDF_FILE)\n                val = (*var)->numrecs;\n            else\n                val = handle->numrecs;", "            if (handle->file_type != HDF_FILE)\n                val = handle->numrecs;\n            else\n                val = (*var)->numrecs;"),  # RECOWNER
+    ("mfhdf/src/cdf.c", "    for (t = 0; t < n; t++) { /* get tag/ref of element in vgroup */\n        if (FAIL == Vgettagref(vg, t, &tag, &ref)) {\n            HGOTO_FAIL(FAIL);\n        }\n\n        /* switch on the type of element: vgroup, vdata, data,",
+     "    for (t = 0; n > t; t++) { /* get tag/ref of element in vgroup */\n        if (FAIL == Vgettagref(vg, t, &tag, &ref)) {\n            HGOTO_FAIL(FAIL);\n        }\n\n        /* switch on the type of element: vgroup, vdata, data,"),  # MEMBERSCAN
+    ("mfhdf/src/putget.c", "                        HDmemfill(values, (*attr)->data->values, vp->szof, count);\n                    else\n                        NC_arrayfill(values, count * vp->szof, vp->type);", "                        HDmemfill(values, (*attr)->data->values, vp->szof, count);\n                    else\n                        NC_arrayfill(values, vp->szof * count, vp->type);"),  # FILLPAIR
+    ("hdf/src/hblocks.c", "    /* this access record no longer refers to the information record, freed or not */\n    access_rec->special_info = NULL;\n\n    return ret_value;\n} /* HLPcloseAID */",
+     "    /* this access record no longer refers to the information record, freed or not */\n    access_rec->special_info = (void *)0;\n\n    return ret_value;\n} /* HLPcloseAID */"),  # DETACHNULL
+    ("hdf/src/dfgr.c", "    if ((rigref = Hnewref(file_id)) == 0)\n        HGOTO_ERROR(DFE_INTERNAL, FAIL);", "    rigref = Hnewref(file_id);\n    if (rigref == 0)\n        HGOTO_ERROR(DFE_INTERNAL, FAIL);"),  # GROUPREF
 ]
 bad = 0
 for rel, old, new in EDITS:
